@@ -60,7 +60,8 @@ ALL_CLASSES = ("F6", "F10", "F11")
 def known_classes():
     """ids of the C16 findings listed as known (read-only lookup)."""
     try:
-        kf = json.load(open(os.path.join(ROOT, "KNOWN_FINDINGS.json")))
+        # C16_KNOWN_FINDINGS: test hook naming another findings file (used to check that an unlisted class alarms)
+        kf = json.load(open(os.environ.get("C16_KNOWN_FINDINGS") or os.path.join(ROOT, "KNOWN_FINDINGS.json")))
     except Exception:  # noqa: BLE001
         return set()
     return {e.get("id") for e in kf.get("findings", [])
